@@ -3,6 +3,7 @@ package props
 import (
 	"bytes"
 	"fmt"
+	"runtime/debug"
 	"sort"
 	"strings"
 
@@ -117,7 +118,11 @@ func runLib(p *Program, pol gen.Policy, twigEnv bool) (o runOut) {
 	mon.BeginExec()
 	mon.TakeExecEndBad()
 	func() {
-		defer func() { o.pan = recover() }()
+		defer func() {
+			if r := recover(); r != nil {
+				o.pan = fmt.Sprintf("%v [%s]", r, panicSite())
+			}
+		}()
 		o.err = env.Execute(p.Main, &buf, ctx)
 	}()
 	_, _, o.exSteps = mon.EndCall()
@@ -125,6 +130,26 @@ func runLib(p *Program, pol gen.Policy, twigEnv bool) (o runOut) {
 	o.out = buf.String()
 	o.calls = rec.Calls
 	return
+}
+
+// panicSite names the innermost frames of the library on the stack of the panic being recovered (to be called
+// from the deferred function that recovers it).
+func panicSite() string {
+	var at []string
+	for _, l := range strings.Split(string(debug.Stack()), "\n") {
+		l = strings.TrimSpace(l)
+		if i := strings.Index(l, " +0x"); i > 0 && strings.Contains(l, ".go:") && !strings.Contains(l, "/harness/") && !strings.Contains(l, "/go/src/") && !strings.Contains(l, "/usr/") {
+			l = l[:i]
+			if j := strings.LastIndex(l, "/"); j >= 0 {
+				l = l[j+1:]
+			}
+			at = append(at, l)
+			if len(at) == 3 {
+				break
+			}
+		}
+	}
+	return strings.Join(at, " < ")
 }
 
 // runModel renders the program with the reference model. inRegion is false when
